@@ -22,7 +22,11 @@ mutual
 /-- B+tree ordering with bounds: leaf keys strictly ascending and within `[lo, hi)`;
     child `i` of a branch holds keys in `[sep_i, sep_{i+1})` — except that the first child
     inherits the node's own lower bound (a branch key may be smaller than its child's
-    first key after deletes, and seeks below the first separator descend into child 0). -/
+    first key after deletes, and seeks below the first separator descend into child 0).
+    Every separator is below the node's upper bound and every NON-first separator is at
+    least the node's lower bound (separators are keys that were routed into this node).
+    [Strengthened: the original definition lacked the two separator-range conjuncts, which
+    made `seek_spec` false — see REPORT.md; the original text is kept below.] -/
 def ST (lo hi : Option Bytes) : Tree → Prop
   | .leaf items => List.Pairwise (fun a b => Bytes.lt a.key b.key = true) items ∧
                    ∀ it ∈ items, geLo lo it.key ∧ ltHi hi it.key
@@ -30,10 +34,19 @@ def ST (lo hi : Option Bytes) : Tree → Prop
 def KidsST (isFirst : Bool) (lo hi : Option Bytes) : List (Bytes × Tree) → Prop
   | [] => True
   | (s, c) :: r =>
+    (isFirst = true ∨ geLo lo s) ∧ ltHi hi s ∧
     match r with
     | [] => ST (if isFirst then lo else some s) hi c
     | (s', _) :: _ => Bytes.lt s s' = true ∧ ST (if isFirst then lo else some s) (some s') c ∧ KidsST false lo hi r
 end
+/- original (too weak) definition of `KidsST`:
+def KidsST (isFirst : Bool) (lo hi : Option Bytes) : List (Bytes × Tree) → Prop
+  | [] => True
+  | (s, c) :: r =>
+    match r with
+    | [] => ST (if isFirst then lo else some s) hi c
+    | (s', _) :: _ => Bytes.lt s s' = true ∧ ST (if isFirst then lo else some s) (some s') c ∧ KidsST false lo hi r
+-/
 
 def SearchTree (t : Tree) : Prop := ST none none t
 
@@ -59,5 +72,1320 @@ def ValidPath : Tree → List Frame → Prop
 
 /-- a cursor stack (top first) that the cursor code can be in for tree `t` -/
 def ValidStack (t : Tree) (st : Stack) : Prop := ValidPath t st.reverse
+
+/-! ## `Bytes.lt` is a strict total order -/
+
+theorem blt_irrefl : ∀ (a : Bytes), Bytes.lt a a = false
+  | [] => rfl
+  | x :: a => by simp [Bytes.lt, UInt8.lt_irrefl, blt_irrefl a]
+
+theorem blt_trans : ∀ {a b c : Bytes}, Bytes.lt a b = true → Bytes.lt b c = true → Bytes.lt a c = true
+  | [], [], _, h, _ => by simp [Bytes.lt] at h
+  | [], _ :: _, [], _, h => by simp [Bytes.lt] at h
+  | [], _ :: _, _ :: _, _, _ => by simp [Bytes.lt]
+  | _ :: _, [], _, h, _ => by simp [Bytes.lt] at h
+  | _ :: _, _ :: _, [], _, h => by simp [Bytes.lt] at h
+  | x :: a, y :: b, z :: c, h1, h2 => by
+    simp only [Bytes.lt] at h1 h2 ⊢
+    have ih := @blt_trans a b c
+    simp only [UInt8.lt_iff_toNat_lt] at h1 h2 ⊢
+    split at h1
+    · split at h2
+      · rw [if_pos (by omega)]
+      · split at h2
+        · simp at h2
+        · rw [if_pos (by omega)]
+    · split at h1
+      · simp at h1
+      · split at h2
+        · rw [if_pos (by omega)]
+        · split at h2
+          · simp at h2
+          · rw [if_neg (by omega), if_neg (by omega)]; exact ih h1 h2
+
+theorem blt_total : ∀ {a b : Bytes}, Bytes.lt a b = false → Bytes.lt b a = false → a = b
+  | [], [], _, _ => rfl
+  | [], _ :: _, h, _ => by simp [Bytes.lt] at h
+  | _ :: _, [], _, h => by simp [Bytes.lt] at h
+  | x :: a, y :: b, h1, h2 => by
+    simp only [Bytes.lt] at h1 h2
+    simp only [UInt8.lt_iff_toNat_lt] at h1 h2
+    split at h1
+    · simp at h1
+    · split at h1
+      · split at h2
+        · simp at h2
+        · omega
+      · rw [if_neg (by omega), if_neg (by omega)] at h2
+        have : x = y := UInt8.toNat_inj.mp (by omega)
+        rw [this, blt_total h1 h2]
+
+theorem blt_asymm {a b : Bytes} (h : Bytes.lt a b = true) : Bytes.lt b a = false := by
+  cases h' : Bytes.lt b a with
+  | false => rfl
+  | true => have := blt_trans h h'; rw [blt_irrefl] at this; cases this
+
+/-- `a < b`, `c ≤ b`... : a < b → ¬ (c < b) → a < c -/
+theorem blt_of_lt_of_le {a b c : Bytes} (h1 : Bytes.lt a b = true) (h2 : Bytes.lt c b = false) : Bytes.lt a c = true := by
+  cases h : Bytes.lt a c with
+  | true => rfl
+  | false =>
+    cases h' : Bytes.lt c a with
+    | true => rw [blt_trans h' h1] at h2; cases h2
+    | false => have := blt_total h h'; subst this; rw [h1] at h2; cases h2
+
+/-- `a ≤ b` and `b < c` give `a < c` -/
+theorem blt_of_le_of_lt {a b c : Bytes} (h1 : Bytes.lt b a = false) (h2 : Bytes.lt b c = true) : Bytes.lt a c = true := by
+  cases h : Bytes.lt a c with
+  | true => rfl
+  | false =>
+    cases h' : Bytes.lt c a with
+    | true => rw [blt_trans h2 h'] at h1; cases h1
+    | false => have := blt_total h h'; subst this; rw [h2] at h1; cases h1
+
+/-- `a ≤ b` and `b ≤ c` give `a ≤ c` -/
+theorem ble_trans {a b c : Bytes} (h1 : Bytes.lt b a = false) (h2 : Bytes.lt c b = false) : Bytes.lt c a = false := by
+  cases h : Bytes.lt c a with
+  | false => rfl
+  | true => rw [blt_of_lt_of_le h h1] at h2; cases h2
+
+/-! ## induction principle for the nested inductive `Tree` -/
+
+theorem Tree.induct {P : Tree → Prop} {Q : List (Bytes × Tree) → Prop}
+    (hleaf : ∀ items, P (.leaf items)) (hbranch : ∀ kids, Q kids → P (.branch kids))
+    (hnil : Q []) (hcons : ∀ s c r, P c → Q r → Q ((s, c) :: r)) : ∀ t, P t := by
+  intro t
+  exact Tree.rec (motive_1 := P) (motive_2 := Q) (motive_3 := fun p => P p.2)
+    hleaf hbranch hnil (fun p r hp hr => hcons p.1 p.2 r hp hr) (fun _ _ h => h) t
+
+theorem Tree.induct_kids {P : Tree → Prop} {Q : List (Bytes × Tree) → Prop}
+    (hleaf : ∀ items, P (.leaf items)) (hbranch : ∀ kids, Q kids → P (.branch kids))
+    (hnil : Q []) (hcons : ∀ s c r, P c → Q r → Q ((s, c) :: r)) : ∀ kids, Q kids := by
+  intro kids
+  induction kids with
+  | nil => exact hnil
+  | cons p r ih => exact hcons p.1 p.2 r (Tree.induct hleaf hbranch hnil hcons p.2) ih
+
+/-! ## lists of children -/
+
+theorem flattenKids_append (a b : List (Bytes × Tree)) :
+    flattenKids (a ++ b) = flattenKids a ++ flattenKids b := by
+  induction a with
+  | nil => simp [flattenKids]
+  | cons p a ih => obtain ⟨s, c⟩ := p; simp [flattenKids, ih]
+
+theorem sizeKids_append (a b : List (Bytes × Tree)) :
+    sizeKids (a ++ b) = sizeKids a + sizeKids b := by
+  induction a with
+  | nil => simp [sizeKids]
+  | cons p a ih => obtain ⟨s, c⟩ := p; simp [sizeKids, ih]; omega
+
+theorem kids_split (kids : List (Bytes × Tree)) (i : Nat) (h : i < kids.length) :
+    kids = kids.take i ++ kids[i] :: kids.drop (i + 1) := by
+  rw [List.getElem_cons_drop, List.take_append_drop]
+
+theorem flattenKids_split (kids : List (Bytes × Tree)) (i : Nat) (h : i < kids.length) :
+    flattenKids (kids.take i) ++ (flatten kids[i].2 ++ flattenKids (kids.drop (i + 1))) = flattenKids kids := by
+  conv => rhs; rw [kids_split kids i h]
+  rw [flattenKids_append]
+  rfl
+
+theorem sizeKids_split (kids : List (Bytes × Tree)) (i : Nat) (h : i < kids.length) :
+    sizeKids (kids.take i) + (size kids[i].2 + sizeKids (kids.drop (i + 1))) = sizeKids kids := by
+  conv => rhs; rw [kids_split kids i h]
+  rw [sizeKids_append]
+  rfl
+
+theorem mem_flattenKids {x : Item} {kids : List (Bytes × Tree)} :
+    x ∈ flattenKids kids ↔ ∃ p ∈ kids, x ∈ flatten p.2 := by
+  induction kids with
+  | nil => simp [flattenKids]
+  | cons p r ih => obtain ⟨s, c⟩ := p; simp [flattenKids, ih]
+
+theorem depth_le_depthKids {kids : List (Bytes × Tree)} {p : Bytes × Tree} (h : p ∈ kids) :
+    depth p.2 ≤ depthKids kids := by
+  induction kids with
+  | nil => cases h
+  | cons q r ih =>
+    obtain ⟨s, c⟩ := q
+    simp only [depthKids]
+    rcases List.mem_cons.mp h with h | h
+    · subst h; exact Nat.le_max_left _ _
+    · exact Nat.le_trans (ih h) (Nat.le_max_right _ _)
+
+theorem bne_of_mem {kids : List (Bytes × Tree)} (hk : BranchesNonEmptyKids kids) {p : Bytes × Tree}
+    (h : p ∈ kids) : BranchesNonEmpty p.2 := by
+  induction kids with
+  | nil => cases h
+  | cons q r ih =>
+    obtain ⟨s, c⟩ := q
+    simp only [BranchesNonEmptyKids] at hk
+    rcases List.mem_cons.mp h with h | h
+    · subst h; exact hk.1
+    · exact ih hk.2 h
+
+theorem nel_of_mem {kids : List (Bytes × Tree)} (hk : NoEmptyLeafKids kids) {p : Bytes × Tree}
+    (h : p ∈ kids) : NoEmptyLeaf p.2 := by
+  induction kids with
+  | nil => cases h
+  | cons q r ih =>
+    obtain ⟨s, c⟩ := q
+    simp only [NoEmptyLeafKids] at hk
+    rcases List.mem_cons.mp h with h | h
+    · subst h; exact hk.1
+    · exact ih hk.2 h
+
+theorem depth_pos (t : Tree) : 1 ≤ depth t := by
+  cases t <;> simp [depth]
+
+theorem size_pos (t : Tree) : 1 ≤ size t := by
+  cases t <;> simp [size]
+
+/-- what `child i = some c` means -/
+theorem child_some {n : Tree} {i : Int} {c : Tree} (h : n.child i = some c) :
+    ∃ kids, n = .branch kids ∧ 0 ≤ i ∧ ∃ hlt : i.toNat < kids.length, kids[i.toNat].2 = c := by
+  cases n with
+  | leaf items => simp [Tree.child] at h
+  | branch kids =>
+    simp only [Tree.child] at h
+    split at h
+    · cases h
+    · rename_i hi
+      refine ⟨kids, rfl, by omega, ?_⟩
+      cases hk : kids[i.toNat]? with
+      | none => rw [hk] at h; cases h
+      | some p =>
+        rw [hk] at h
+        obtain ⟨hlt, hp⟩ := List.getElem?_eq_some_iff.mp hk
+        refine ⟨hlt, ?_⟩
+        rw [hp]; simpa using h
+
+theorem child_of_lt {kids : List (Bytes × Tree)} {i : Int} (h0 : 0 ≤ i) (h : i.toNat < kids.length) :
+    (Tree.branch kids).child i = some kids[i.toNat].2 := by
+  simp only [Tree.child]
+  rw [if_neg (by omega)]
+  simp [List.getElem?_eq_getElem h]
+
+/-- a non-empty-leaf subtree with non-empty branches holds at least one key -/
+theorem flatten_ne_nil : ∀ t, BranchesNonEmpty t → NoEmptyLeaf t → flatten t ≠ [] := by
+  refine Tree.induct (Q := fun kids => BranchesNonEmptyKids kids → NoEmptyLeafKids kids → kids ≠ [] → flattenKids kids ≠ [])
+    ?_ ?_ ?_ ?_
+  · intro items _ h; simpa [flatten, NoEmptyLeaf] using h
+  · intro kids ih hb hn
+    simp only [BranchesNonEmpty] at hb
+    simp only [NoEmptyLeaf] at hn
+    simpa [flatten] using ih hb.2 hn hb.1
+  · intro _ _ h; exact absurd rfl h
+  · intro s c r ihc _ hb hn _
+    simp only [BranchesNonEmptyKids] at hb
+    simp only [NoEmptyLeafKids] at hn
+    simp only [flattenKids]
+    intro h
+    exact ihc hb.1 hn.1 (List.append_eq_nil_iff.mp h).1
+
+/-! ## a stack as a position in `flatten t` -/
+
+def InRange (f : Frame) : Prop := 0 ≤ f.index ∧ f.index < f.node.count
+
+/-- keys strictly right of the frame's index, inside the frame's node -/
+def rightOf (f : Frame) : List Item :=
+  match f.node with
+  | .leaf items => items.drop (f.index + 1).toNat
+  | .branch kids => flattenKids (kids.drop (f.index + 1).toNat)
+/-- keys at or right of the frame's index -/
+def fromTop (f : Frame) : List Item :=
+  match f.node with
+  | .leaf items => items.drop f.index.toNat
+  | .branch kids => flattenKids (kids.drop f.index.toNat)
+/-- keys strictly left of the frame's index -/
+def leftOf (f : Frame) : List Item :=
+  match f.node with
+  | .leaf items => items.take f.index.toNat
+  | .branch kids => flattenKids (kids.take f.index.toNat)
+/-- keys at or left of the frame's index -/
+def uptoTop (f : Frame) : List Item :=
+  match f.node with
+  | .leaf items => items.take (f.index + 1).toNat
+  | .branch kids => flattenKids (kids.take (f.index + 1).toNat)
+
+def sizeRight (f : Frame) : Nat :=
+  match f.node with
+  | .leaf _ => 0
+  | .branch kids => sizeKids (kids.drop (f.index + 1).toNat)
+def sizeFromTop (f : Frame) : Nat :=
+  match f.node with
+  | .leaf _ => 0
+  | .branch kids => sizeKids (kids.drop f.index.toNat)
+def sizeLeft (f : Frame) : Nat :=
+  match f.node with
+  | .leaf _ => 0
+  | .branch kids => sizeKids (kids.take f.index.toNat)
+def sizeUptoTop (f : Frame) : Nat :=
+  match f.node with
+  | .leaf _ => 0
+  | .branch kids => sizeKids (kids.take (f.index + 1).toNat)
+
+/-- everything strictly right of the cursor -/
+def after : Stack → List Item
+  | [] => []
+  | f :: r => rightOf f ++ after r
+/-- everything strictly left of the cursor -/
+def before : Stack → List Item
+  | [] => []
+  | f :: r => before r ++ leftOf f
+/-- the element under the cursor and everything right of it -/
+def frm : Stack → List Item
+  | [] => []
+  | f :: r => fromTop f ++ after r
+/-- the element under the cursor and everything left of it -/
+def upto : Stack → List Item
+  | [] => []
+  | f :: r => before r ++ uptoTop f
+
+def sizeAfter : Stack → Nat
+  | [] => 0
+  | f :: r => sizeRight f + sizeAfter r
+def sizeBefore : Stack → Nat
+  | [] => 0
+  | f :: r => sizeBefore r + sizeLeft f
+def sizeFrm : Stack → Nat
+  | [] => 0
+  | f :: r => sizeFromTop f + sizeAfter r
+def sizeUpto : Stack → Nat
+  | [] => 0
+  | f :: r => sizeBefore r + sizeUptoTop f
+
+/-- `rest` is the chain of ancestors of node `n` (parent first) up to the root `t` -/
+def Anc (t : Tree) : Tree → Stack → Prop
+  | n, [] => n = t
+  | n, g :: rest => 0 ≤ g.index ∧ g.node.child g.index = some n ∧ Anc t g.node rest
+
+/-- `ValidStack`, top first -/
+def VS (t : Tree) : Stack → Prop
+  | [] => True
+  | f :: rest => -1 ≤ f.index ∧ f.index ≤ f.node.count ∧ Anc t f.node rest
+
+/-! ### `ValidStack` (bottom-first, via `reverse`) is `VS` -/
+
+theorem validPath_snoc2 : ∀ (l : List Frame) (t : Tree) (g f : Frame),
+    ValidPath t (l ++ [g, f]) ↔
+      ValidPath t (l ++ [g]) ∧ 0 ≤ g.index ∧ g.node.child g.index = some f.node ∧
+        -1 ≤ f.index ∧ f.index ≤ f.node.count
+  | [], t, g, f => by
+    simp only [List.nil_append, ValidPath]
+    constructor
+    · rintro ⟨h1, h2, h3, _, h4, h5⟩
+      obtain ⟨kids, hk, _, hlt, _⟩ := child_some h3
+      refine ⟨⟨h1, by omega, ?_⟩, h2, h3, h4, h5⟩
+      rw [hk]; simp only [Tree.count]; omega
+    · rintro ⟨⟨h1, _, _⟩, h2, h3, h4, h5⟩
+      exact ⟨h1, h2, h3, trivial, h4, h5⟩
+  | [h], t, g, f => by
+    have ih := validPath_snoc2 [] g.node g f
+    simp only [List.nil_append] at ih
+    simp only [List.cons_append, List.nil_append, ValidPath]
+    simp only [ValidPath] at ih
+    constructor
+    · rintro ⟨a, b, c, d⟩
+      have := ih.mp d
+      exact ⟨⟨a, b, c, this.1⟩, this.2⟩
+    · rintro ⟨⟨a, b, c, d⟩, e⟩
+      exact ⟨a, b, c, ih.mpr ⟨d, e⟩⟩
+  | h :: h' :: l, t, g, f => by
+    have ih := validPath_snoc2 (h' :: l) h'.node g f
+    simp only [List.cons_append, ValidPath] at ih ⊢
+    constructor
+    · rintro ⟨a, b, c, d⟩
+      have := ih.mp d
+      exact ⟨⟨a, b, c, this.1⟩, this.2⟩
+    · rintro ⟨⟨a, b, c, d⟩, e⟩
+      exact ⟨a, b, c, ih.mpr ⟨d, e⟩⟩
+
+theorem validStack_cons2 (t : Tree) (f g : Frame) (rest : Stack) :
+    ValidStack t (f :: g :: rest) ↔
+      ValidStack t (g :: rest) ∧ 0 ≤ g.index ∧ g.node.child g.index = some f.node ∧
+        -1 ≤ f.index ∧ f.index ≤ f.node.count := by
+  simp only [ValidStack, List.reverse_cons, List.append_assoc, List.cons_append, List.nil_append]
+  exact validPath_snoc2 rest.reverse t g f
+
+theorem validStack_iff_VS (t : Tree) : ∀ (st : Stack), ValidStack t st ↔ VS t st
+  | [] => by simp [ValidStack, ValidPath, VS]
+  | [f] => by
+    simp only [ValidStack, List.reverse_cons, List.reverse_nil, List.nil_append, ValidPath, VS, Anc]
+    constructor
+    · rintro ⟨a, b, c⟩; exact ⟨b, c, a⟩
+    · rintro ⟨b, c, a⟩; exact ⟨a, b, c⟩
+  | f :: g :: rest => by
+    rw [validStack_cons2, validStack_iff_VS t (g :: rest)]
+    simp only [VS, Anc]
+    constructor
+    · rintro ⟨⟨_, _, a⟩, b, c, d, e⟩; exact ⟨d, e, b, c, a⟩
+    · rintro ⟨d, e, b, c, a⟩
+      obtain ⟨kids, hk, _, hlt, _⟩ := child_some c
+      refine ⟨⟨by omega, ?_, a⟩, b, c, d, e⟩
+      rw [hk]; simp only [Tree.count]; omega
+
+
+/-! ### one frame and its child -/
+
+theorem leftOf_append_fromTop (f : Frame) : leftOf f ++ fromTop f = flatten f.node := by
+  obtain ⟨node, i⟩ := f
+  cases node with
+  | leaf items => simp [leftOf, fromTop, flatten]
+  | branch kids => simp only [leftOf, fromTop, flatten]; rw [← flattenKids_append, List.take_append_drop]
+
+theorem uptoTop_append_rightOf (f : Frame) : uptoTop f ++ rightOf f = flatten f.node := by
+  obtain ⟨node, i⟩ := f
+  cases node with
+  | leaf items => simp [uptoTop, rightOf, flatten]
+  | branch kids => simp only [uptoTop, rightOf, flatten]; rw [← flattenKids_append, List.take_append_drop]
+
+theorem sizeKids_drop_succ_le (kids : List (Bytes × Tree)) (n : Nat) :
+    sizeKids (kids.drop (n + 1)) ≤ sizeKids (kids.drop n) := by
+  by_cases h : n < kids.length
+  · rw [List.drop_eq_getElem_cons h]
+    generalize kids[n] = p
+    obtain ⟨s, c⟩ := p
+    simp only [sizeKids]; omega
+  · rw [List.drop_eq_nil_iff.mpr (by omega), List.drop_eq_nil_iff.mpr (by omega)]
+    exact Nat.le_refl _
+
+theorem sizeKids_take_le_succ (kids : List (Bytes × Tree)) (n : Nat) :
+    sizeKids (kids.take n) ≤ sizeKids (kids.take (n + 1)) := by
+  rw [List.take_add_one, sizeKids_append]; omega
+
+theorem sizeRight_le_sizeFromTop (f : Frame) : sizeRight f ≤ sizeFromTop f := by
+  obtain ⟨node, i⟩ := f
+  cases node with
+  | leaf items => simp [sizeRight, sizeFromTop]
+  | branch kids =>
+    simp only [sizeRight, sizeFromTop]
+    by_cases h : 0 ≤ i
+    · have : (i + 1).toNat = i.toNat + 1 := by omega
+      rw [this]; exact sizeKids_drop_succ_le _ _
+    · have h1 : (i + 1).toNat = 0 := by omega
+      have h2 : i.toNat = 0 := by omega
+      rw [h1, h2]; exact Nat.le_refl _
+
+theorem sizeLeft_le_sizeUptoTop (f : Frame) : sizeLeft f ≤ sizeUptoTop f := by
+  obtain ⟨node, i⟩ := f
+  cases node with
+  | leaf items => simp [sizeLeft, sizeUptoTop]
+  | branch kids =>
+    simp only [sizeLeft, sizeUptoTop]
+    by_cases h : 0 ≤ i
+    · have : (i + 1).toNat = i.toNat + 1 := by omega
+      rw [this]; exact sizeKids_take_le_succ _ _
+    · have h1 : (i + 1).toNat = 0 := by omega
+      have h2 : i.toNat = 0 := by omega
+      rw [h1, h2]; exact Nat.le_refl _
+
+theorem sizeRight_lt_size (f : Frame) : sizeRight f < size f.node := by
+  obtain ⟨node, i⟩ := f
+  cases node with
+  | leaf items => simp [sizeRight, size]
+  | branch kids =>
+    simp only [sizeRight, size]
+    have := sizeKids_append (kids.take (i + 1).toNat) (kids.drop (i + 1).toNat)
+    rw [List.take_append_drop] at this
+    omega
+
+theorem sizeLeft_lt_size (f : Frame) : sizeLeft f < size f.node := by
+  obtain ⟨node, i⟩ := f
+  cases node with
+  | leaf items => simp [sizeLeft, size]
+  | branch kids =>
+    simp only [sizeLeft, size]
+    have := sizeKids_append (kids.take i.toNat) (kids.drop i.toNat)
+    rw [List.take_append_drop] at this
+    omega
+
+section child
+variable {g : Frame} {n : Tree} (h : g.node.child g.index = some n)
+include h
+
+theorem child_inRange : InRange g := by
+  obtain ⟨kids, hk, h0, hlt, _⟩ := child_some h
+  refine ⟨h0, ?_⟩
+  rw [hk]; simp only [Tree.count]; omega
+
+theorem child_bne (hb : BranchesNonEmpty g.node) : BranchesNonEmpty n := by
+  obtain ⟨kids, hk, h0, hlt, hc⟩ := child_some h
+  rw [hk] at hb
+  simp only [BranchesNonEmpty] at hb
+  rw [← hc]
+  exact bne_of_mem hb.2 (List.getElem_mem hlt)
+
+theorem child_nelbr (hb : NoEmptyLeafBelowRoot g.node) : NoEmptyLeaf n := by
+  obtain ⟨kids, hk, h0, hlt, hc⟩ := child_some h
+  rw [hk] at hb
+  simp only [NoEmptyLeafBelowRoot] at hb
+  rw [← hc]
+  exact nel_of_mem hb (List.getElem_mem hlt)
+
+theorem child_depth : depth n < depth g.node := by
+  obtain ⟨kids, hk, h0, hlt, hc⟩ := child_some h
+  rw [hk, ← hc]
+  simp only [depth]
+  have := depth_le_depthKids (List.getElem_mem hlt)
+  omega
+
+theorem child_flatten : leftOf g ++ (flatten n ++ rightOf g) = flatten g.node := by
+  obtain ⟨kids, hk, h0, hlt, hc⟩ := child_some h
+  obtain ⟨node, i⟩ := g
+  simp only at hk h0 hlt hc
+  subst hk
+  have : (i + 1).toNat = i.toNat + 1 := by omega
+  simp only [leftOf, rightOf, flatten, this, ← hc]
+  exact flattenKids_split kids i.toNat hlt
+
+theorem child_size : sizeLeft g + (size n + sizeRight g) + 1 = size g.node := by
+  obtain ⟨kids, hk, h0, hlt, hc⟩ := child_some h
+  obtain ⟨node, i⟩ := g
+  simp only at hk h0 hlt hc
+  subst hk
+  have : (i + 1).toNat = i.toNat + 1 := by omega
+  simp only [sizeLeft, sizeRight, size, this, ← hc]
+  have := sizeKids_split kids i.toNat hlt
+  omega
+
+end child
+
+theorem nel_nelbr {n : Tree} (h : NoEmptyLeaf n) : NoEmptyLeafBelowRoot n := by
+  cases n with
+  | leaf items => trivial
+  | branch kids => simpa [NoEmptyLeaf, NoEmptyLeafBelowRoot] using h
+
+/-! ### facts along the ancestor chain -/
+
+theorem Anc_bne {t : Tree} (hb : BranchesNonEmpty t) : ∀ {rest : Stack} {n : Tree}, Anc t n rest → BranchesNonEmpty n
+  | [], n, h => by simp only [Anc] at h; rw [h]; exact hb
+  | g :: rest, n, h => by
+    simp only [Anc] at h
+    exact child_bne h.2.1 (Anc_bne hb h.2.2)
+
+theorem Anc_nelbr {t : Tree} (hb : NoEmptyLeafBelowRoot t) : ∀ {rest : Stack} {n : Tree}, Anc t n rest → NoEmptyLeafBelowRoot n
+  | [], n, h => by simp only [Anc] at h; rw [h]; exact hb
+  | g :: rest, n, h => by
+    simp only [Anc] at h
+    exact nel_nelbr (child_nelbr h.2.1 (Anc_nelbr hb h.2.2))
+
+theorem Anc_depth {t : Tree} : ∀ {rest : Stack} {n : Tree}, Anc t n rest → depth n ≤ depth t
+  | [], n, h => by simp only [Anc] at h; rw [h]; exact Nat.le_refl _
+  | g :: rest, n, h => by
+    simp only [Anc] at h
+    have := child_depth h.2.1
+    have := Anc_depth h.2.2
+    omega
+
+theorem Anc_flatten {t : Tree} : ∀ {rest : Stack} {n : Tree}, Anc t n rest →
+    before rest ++ (flatten n ++ after rest) = flatten t
+  | [], n, h => by simp only [Anc] at h; simp [before, after, h]
+  | g :: rest, n, h => by
+    simp only [Anc] at h
+    have h1 := child_flatten h.2.1
+    have h2 := Anc_flatten h.2.2
+    simp only [before, after]
+    rw [← h2, ← h1]
+    simp [List.append_assoc]
+
+theorem Anc_size {t : Tree} : ∀ {rest : Stack} {n : Tree}, Anc t n rest →
+    sizeBefore rest + (size n + sizeAfter rest) ≤ size t
+  | [], n, h => by simp only [Anc] at h; simp [sizeBefore, sizeAfter, h]
+  | g :: rest, n, h => by
+    simp only [Anc] at h
+    have h1 := child_size h.2.1
+    have h2 := Anc_size h.2.2
+    simp only [sizeBefore, sizeAfter]
+    omega
+
+theorem Anc_VS {t n : Tree} {g : Frame} {rest : Stack} (h : Anc t n (g :: rest)) : VS t (g :: rest) := by
+  simp only [Anc] at h
+  have := child_inRange h.2.1
+  exact ⟨by have := this.1; omega, by have := this.2; omega, h.2.2⟩
+
+theorem VS_flatten_frm {t : Tree} {st : Stack} (h : VS t st) (hne : st ≠ []) : before st ++ frm st = flatten t := by
+  cases st with
+  | nil => exact absurd rfl hne
+  | cons f rest =>
+    simp only [VS] at h
+    simp only [before, frm]
+    rw [← Anc_flatten h.2.2, ← leftOf_append_fromTop f]
+    simp [List.append_assoc]
+
+theorem VS_flatten_upto {t : Tree} {st : Stack} (h : VS t st) (hne : st ≠ []) : upto st ++ after st = flatten t := by
+  cases st with
+  | nil => exact absurd rfl hne
+  | cons f rest =>
+    simp only [VS] at h
+    simp only [upto, after]
+    rw [← Anc_flatten h.2.2, ← uptoTop_append_rightOf f]
+    simp [List.append_assoc]
+
+theorem VS_sizeAfter_lt {t : Tree} {st : Stack} (h : VS t st) : sizeAfter st < size t := by
+  cases st with
+  | nil => exact size_pos t
+  | cons f rest =>
+    simp only [VS] at h
+    have := Anc_size h.2.2
+    have := sizeRight_lt_size f
+    simp only [sizeAfter]; omega
+
+theorem VS_sizeBefore_lt {t : Tree} {st : Stack} (h : VS t st) : sizeBefore st < size t := by
+  cases st with
+  | nil => exact size_pos t
+  | cons f rest =>
+    simp only [VS] at h
+    have := Anc_size h.2.2
+    have := sizeLeft_lt_size f
+    simp only [sizeBefore]; omega
+
+
+theorem VS_tail {t : Tree} {f : Frame} {rest : Stack} (h : VS t (f :: rest)) : VS t rest := by
+  cases rest with
+  | nil => trivial
+  | cons g rest => exact Anc_VS h.2.2
+
+/-! ### descending: `goToFirst` / `goToLast` -/
+
+section child2
+variable {g : Frame} {n : Tree} (h : g.node.child g.index = some n)
+include h
+
+theorem fromTop_child : fromTop g = flatten n ++ rightOf g ∧ sizeFromTop g = size n + sizeRight g := by
+  obtain ⟨kids, hk, h0, hlt, hc⟩ := child_some h
+  obtain ⟨node, i⟩ := g
+  simp only at hk h0 hlt hc
+  subst hk
+  have : (i + 1).toNat = i.toNat + 1 := by omega
+  simp only [fromTop, rightOf, sizeFromTop, sizeRight, this, ← hc]
+  rw [List.drop_eq_getElem_cons hlt]
+  generalize kids[i.toNat] = p
+  obtain ⟨s, c⟩ := p
+  simp [flattenKids, sizeKids]
+
+theorem uptoTop_child : uptoTop g = leftOf g ++ flatten n ∧ sizeUptoTop g = sizeLeft g + size n := by
+  obtain ⟨kids, hk, h0, hlt, hc⟩ := child_some h
+  obtain ⟨node, i⟩ := g
+  simp only at hk h0 hlt hc
+  subst hk
+  have : (i + 1).toNat = i.toNat + 1 := by omega
+  simp only [uptoTop, leftOf, sizeUptoTop, sizeLeft, this, ← hc]
+  rw [List.take_add_one, List.getElem?_eq_getElem hlt, flattenKids_append, sizeKids_append]
+  generalize kids[i.toNat] = p
+  obtain ⟨s, c⟩ := p
+  simp [flattenKids, sizeKids]
+
+end child2
+
+theorem fromTop_zero (c : Tree) : fromTop ⟨c, 0⟩ = flatten c ∧ sizeFromTop ⟨c, 0⟩ + 1 = size c := by
+  cases c with
+  | leaf items => simp [fromTop, flatten, sizeFromTop, size]
+  | branch kids => simp [fromTop, flatten, sizeFromTop, size]; omega
+
+theorem uptoTop_last (c : Tree) : uptoTop ⟨c, (c.count : Int) - 1⟩ = flatten c ∧ sizeUptoTop ⟨c, (c.count : Int) - 1⟩ + 1 = size c := by
+  cases c with
+  | leaf items => simp [uptoTop, flatten, sizeUptoTop, size, Tree.count]
+  | branch kids => simp [uptoTop, flatten, sizeUptoTop, size, Tree.count]; omega
+
+theorem sizeAfter_le_sizeFrm (st : Stack) : sizeAfter st ≤ sizeFrm st := by
+  cases st with
+  | nil => exact Nat.le_refl _
+  | cons f rest => simp only [sizeAfter, sizeFrm]; have := sizeRight_le_sizeFromTop f; omega
+
+theorem sizeBefore_le_sizeUpto (st : Stack) : sizeBefore st ≤ sizeUpto st := by
+  cases st with
+  | nil => exact Nat.le_refl _
+  | cons f rest => simp only [sizeBefore, sizeUpto]; have := sizeLeft_le_sizeUptoTop f; omega
+
+theorem frm_push {f : Frame} {rest : Stack} {c : Tree} (h : f.node.child f.index = some c) :
+    frm (⟨c, 0⟩ :: f :: rest) = frm (f :: rest) ∧ sizeFrm (⟨c, 0⟩ :: f :: rest) + 1 = sizeFrm (f :: rest) := by
+  simp only [frm, after, sizeFrm, sizeAfter]
+  rw [(fromTop_child h).1, (fromTop_child h).2, (fromTop_zero c).1]
+  have := (fromTop_zero c).2
+  constructor
+  · simp [List.append_assoc]
+  · omega
+
+theorem upto_push {f : Frame} {rest : Stack} {c : Tree} (h : f.node.child f.index = some c) :
+    upto (⟨c, (c.count : Int) - 1⟩ :: f :: rest) = upto (f :: rest) ∧
+      sizeUpto (⟨c, (c.count : Int) - 1⟩ :: f :: rest) + 1 = sizeUpto (f :: rest) := by
+  simp only [upto, before, sizeUpto, sizeBefore]
+  rw [(uptoTop_child h).1, (uptoTop_child h).2, (uptoTop_last c).1]
+  have := (uptoTop_last c).2
+  constructor
+  · simp [List.append_assoc]
+  · omega
+
+theorem goToFirst_frm : ∀ (d : Nat) (st : Stack),
+    frm (goToFirst d st) = frm st ∧ sizeAfter (goToFirst d st) ≤ sizeFrm st
+  | 0, st => ⟨rfl, sizeAfter_le_sizeFrm st⟩
+  | d+1, [] => ⟨rfl, Nat.le_refl _⟩
+  | d+1, f :: rest => by
+    simp only [goToFirst]
+    split
+    · exact ⟨rfl, sizeAfter_le_sizeFrm _⟩
+    · split
+      · exact ⟨rfl, sizeAfter_le_sizeFrm _⟩
+      · rename_i c hc
+        have ih := goToFirst_frm d (⟨c, 0⟩ :: f :: rest)
+        have hp := frm_push (rest := rest) hc
+        exact ⟨ih.1.trans hp.1, by omega⟩
+
+theorem goToLast_upto : ∀ (d : Nat) (st : Stack),
+    upto (goToLast d st) = upto st ∧ sizeBefore (goToLast d st) ≤ sizeUpto st
+  | 0, st => ⟨rfl, sizeBefore_le_sizeUpto st⟩
+  | d+1, [] => ⟨rfl, Nat.le_refl _⟩
+  | d+1, f :: rest => by
+    simp only [goToLast]
+    split
+    · exact ⟨rfl, sizeBefore_le_sizeUpto _⟩
+    · split
+      · exact ⟨rfl, sizeBefore_le_sizeUpto _⟩
+      · rename_i c hc
+        have ih := goToLast_upto d (⟨c, (c.count : Int) - 1⟩ :: f :: rest)
+        have hp := upto_push (rest := rest) hc
+        exact ⟨ih.1.trans hp.1, by omega⟩
+
+theorem inRange_child {f : Frame} (hr : InRange f) (hl : f.node.isLeaf = false) :
+    ∃ c, f.node.child f.index = some c := by
+  obtain ⟨node, i⟩ := f
+  cases node with
+  | leaf items => simp [Tree.isLeaf] at hl
+  | branch kids =>
+    have h0 : 0 ≤ i := hr.1
+    have h1 : i < (kids.length : Int) := hr.2
+    exact ⟨_, child_of_lt h0 (by omega)⟩
+
+/-- a descent from an in-range branch frame strictly shrinks the measure -/
+theorem goToFirst_size_lt {d : Nat} {f : Frame} {rest : Stack} (hl : f.node.isLeaf = false) (hr : InRange f) :
+    sizeAfter (goToFirst (d + 1) (f :: rest)) < sizeFrm (f :: rest) := by
+  obtain ⟨c, hc⟩ := inRange_child hr hl
+  simp only [goToFirst, hl, Bool.false_eq_true, if_false, hc]
+  have ih := goToFirst_frm d (⟨c, 0⟩ :: f :: rest)
+  have hp := frm_push (rest := rest) hc
+  omega
+
+theorem goToLast_size_lt {d : Nat} {f : Frame} {rest : Stack} (hl : f.node.isLeaf = false) (hr : InRange f) :
+    sizeBefore (goToLast (d + 1) (f :: rest)) < sizeUpto (f :: rest) := by
+  obtain ⟨c, hc⟩ := inRange_child hr hl
+  simp only [goToLast, hl, Bool.false_eq_true, if_false, hc]
+  have ih := goToLast_upto d (⟨c, (c.count : Int) - 1⟩ :: f :: rest)
+  have hp := upto_push (rest := rest) hc
+  omega
+
+theorem goToFirst_VS {t : Tree} : ∀ (d : Nat) (st : Stack), VS t st → VS t (goToFirst d st)
+  | 0, st, h => h
+  | d+1, [], h => h
+  | d+1, f :: rest, h => by
+    simp only [goToFirst]
+    split
+    · exact h
+    · split
+      · exact h
+      · rename_i c hc
+        apply goToFirst_VS d
+        have hr := child_inRange hc
+        refine ⟨?_, ?_, hr.1, hc, h.2.2⟩
+        · show (-1 : Int) ≤ 0; omega
+        · show (0 : Int) ≤ (c.count : Int); omega
+
+theorem goToLast_VS {t : Tree} : ∀ (d : Nat) (st : Stack), VS t st → VS t (goToLast d st)
+  | 0, st, h => h
+  | d+1, [], h => h
+  | d+1, f :: rest, h => by
+    simp only [goToLast]
+    split
+    · exact h
+    · split
+      · exact h
+      · rename_i c hc
+        apply goToLast_VS d
+        have hr := child_inRange hc
+        refine ⟨?_, ?_, hr.1, hc, h.2.2⟩
+        · show (-1 : Int) ≤ (c.count : Int) - 1; omega
+        · show (c.count : Int) - 1 ≤ (c.count : Int); omega
+
+/-- the top frame is a leaf positioned on its first element (index 0 if the leaf is empty) -/
+def Settled : Stack → Prop
+  | [] => False
+  | f :: _ => f.node.isLeaf = true ∧ 0 ≤ f.index ∧ (f.index < f.node.count ∨ f.node.count = 0)
+
+/-- the top frame is a leaf positioned on its last element (index -1 if the leaf is empty) -/
+def SettledBack : Stack → Prop
+  | [] => False
+  | f :: _ => f.node.isLeaf = true ∧ f.index < f.node.count ∧ (0 ≤ f.index ∨ f.node.count = 0)
+
+theorem bne_count {n : Tree} (hb : BranchesNonEmpty n) (hl : n.isLeaf = false) : 0 < n.count := by
+  cases n with
+  | leaf items => simp [Tree.isLeaf] at hl
+  | branch kids =>
+    simp only [BranchesNonEmpty] at hb
+    simp only [Tree.count]
+    exact List.length_pos_iff.mpr hb.1
+
+theorem goToFirst_settled : ∀ (d : Nat) (f : Frame) (rest : Stack), depth f.node ≤ d → BranchesNonEmpty f.node →
+    0 ≤ f.index → (f.index < f.node.count ∨ f.node.count = 0) → Settled (goToFirst d (f :: rest))
+  | 0, f, rest, hd, _, _, _ => by have := depth_pos f.node; omega
+  | d+1, f, rest, hd, hb, h0, h1 => by
+    simp only [goToFirst]
+    split
+    · rename_i hl; exact ⟨hl, h0, h1⟩
+    · rename_i hl
+      have hl : f.node.isLeaf = false := by simpa using hl
+      have hcnt := bne_count hb hl
+      have hr : InRange f := ⟨h0, by omega⟩
+      obtain ⟨c, hc⟩ := inRange_child hr hl
+      simp only [hc]
+      have hcb := child_bne hc hb
+      have hcd := child_depth hc
+      apply goToFirst_settled d
+      · show depth c ≤ d; omega
+      · exact hcb
+      · exact Int.le_refl 0
+      · show (0 : Int) < (c.count : Int) ∨ c.count = 0; omega
+
+theorem goToLast_settled : ∀ (d : Nat) (f : Frame) (rest : Stack), depth f.node ≤ d → BranchesNonEmpty f.node →
+    f.index < f.node.count → (0 ≤ f.index ∨ f.node.count = 0) → SettledBack (goToLast d (f :: rest))
+  | 0, f, rest, hd, _, _, _ => by have := depth_pos f.node; omega
+  | d+1, f, rest, hd, hb, h0, h1 => by
+    simp only [goToLast]
+    split
+    · rename_i hl; exact ⟨hl, h0, h1⟩
+    · rename_i hl
+      have hl : f.node.isLeaf = false := by simpa using hl
+      have hcnt := bne_count hb hl
+      have hr : InRange f := ⟨by omega, h0⟩
+      obtain ⟨c, hc⟩ := inRange_child hr hl
+      simp only [hc]
+      have hcb := child_bne hc hb
+      have hcd := child_depth hc
+      apply goToLast_settled d
+      · show depth c ≤ d; omega
+      · exact hcb
+      · show (c.count : Int) - 1 < (c.count : Int); omega
+      · show (0 : Int) ≤ (c.count : Int) - 1 ∨ c.count = 0; omega
+
+
+/-! ### moving sideways: `advance` / `retreat` -/
+
+theorem rightOf_nil {f : Frame} (h : ¬ f.index < (f.node.count : Int) - 1) : rightOf f = [] ∧ sizeRight f = 0 := by
+  obtain ⟨node, i⟩ := f
+  cases node with
+  | leaf items =>
+    have h : ¬ i < (items.length : Int) - 1 := h
+    simp only [rightOf, sizeRight, and_true]
+    exact List.drop_eq_nil_iff.mpr (by omega)
+  | branch kids =>
+    have h : ¬ i < (kids.length : Int) - 1 := h
+    simp only [rightOf, sizeRight]
+    rw [List.drop_eq_nil_iff.mpr (by omega)]
+    exact ⟨rfl, rfl⟩
+
+theorem leftOf_nil {f : Frame} (h : ¬ f.index > 0) : leftOf f = [] ∧ sizeLeft f = 0 := by
+  obtain ⟨node, i⟩ := f
+  have h : ¬ i > 0 := h
+  have h0 : i.toNat = 0 := by omega
+  cases node with
+  | leaf items => simp [leftOf, sizeLeft, h0]
+  | branch kids => simp [leftOf, sizeLeft, h0, flattenKids, sizeKids]
+
+theorem fromTop_incr (f : Frame) :
+    fromTop { f with index := f.index + 1 } = rightOf f ∧ sizeFromTop { f with index := f.index + 1 } = sizeRight f := by
+  obtain ⟨node, i⟩ := f
+  cases node <;> exact ⟨rfl, rfl⟩
+
+theorem uptoTop_decr (f : Frame) :
+    uptoTop { f with index := f.index - 1 } = leftOf f ∧ sizeUptoTop { f with index := f.index - 1 } = sizeLeft f := by
+  obtain ⟨node, i⟩ := f
+  have : i - 1 + 1 = i := by omega
+  cases node <;> simp [uptoTop, leftOf, sizeUptoTop, sizeLeft, this]
+
+theorem advance_frm : ∀ {st st1 : Stack}, advance st = some st1 →
+    frm st1 = after st ∧ sizeFrm st1 = sizeAfter st
+  | [], _, h => by simp [advance] at h
+  | f :: rest, st1, h => by
+    simp only [advance] at h
+    split at h
+    · cases h
+      simp only [frm, after, sizeFrm, sizeAfter, (fromTop_incr f).1, (fromTop_incr f).2, and_self]
+    · rename_i hlt
+      have ih := advance_frm h
+      simp only [after, sizeAfter, (rightOf_nil hlt).1, (rightOf_nil hlt).2, List.nil_append, Nat.zero_add]
+      exact ih
+
+theorem retreat_upto : ∀ {st st1 : Stack}, retreat st = some st1 →
+    upto st1 = before st ∧ sizeUpto st1 = sizeBefore st
+  | [], _, h => by simp [retreat] at h
+  | f :: rest, st1, h => by
+    simp only [retreat] at h
+    split at h
+    · cases h
+      simp only [upto, before, sizeUpto, sizeBefore, (uptoTop_decr f).1, (uptoTop_decr f).2, and_self]
+    · rename_i hlt
+      have ih := retreat_upto h
+      simp only [before, sizeBefore, (leftOf_nil hlt).1, (leftOf_nil hlt).2, List.append_nil, Nat.add_zero]
+      exact ih
+
+theorem advance_none : ∀ {st : Stack}, advance st = none → after st = []
+  | [], _ => rfl
+  | f :: rest, h => by
+    simp only [advance] at h
+    split at h
+    · cases h
+    · rename_i hlt
+      simp only [after, (rightOf_nil hlt).1, List.nil_append]
+      exact advance_none h
+
+theorem retreat_none : ∀ {st : Stack}, retreat st = none → before st = []
+  | [], _ => rfl
+  | f :: rest, h => by
+    simp only [retreat] at h
+    split at h
+    · cases h
+    · rename_i hlt
+      simp only [before, (leftOf_nil hlt).1, List.append_nil]
+      exact retreat_none h
+
+theorem advance_VS {t : Tree} : ∀ {st st1 : Stack}, VS t st → advance st = some st1 →
+    VS t st1 ∧ ∃ f' r, st1 = f' :: r ∧ InRange f'
+  | [], _, _, h => by simp [advance] at h
+  | f :: rest, st1, hv, h => by
+    simp only [advance] at h
+    split at h
+    · rename_i hlt
+      cases h
+      have h1 := hv.1
+      refine ⟨⟨?_, ?_, hv.2.2⟩, _, _, rfl, ?_, ?_⟩
+      · show -1 ≤ f.index + 1; omega
+      · show f.index + 1 ≤ f.node.count; omega
+      · show 0 ≤ f.index + 1; omega
+      · show f.index + 1 < f.node.count; omega
+    · exact advance_VS (VS_tail hv) h
+
+theorem retreat_VS {t : Tree} : ∀ {st st1 : Stack}, VS t st → retreat st = some st1 →
+    VS t st1 ∧ ∃ f' r, st1 = f' :: r ∧ InRange f'
+  | [], _, _, h => by simp [retreat] at h
+  | f :: rest, st1, hv, h => by
+    simp only [retreat] at h
+    split at h
+    · rename_i hlt
+      cases h
+      have h1 := hv.2.1
+      refine ⟨⟨?_, ?_, hv.2.2⟩, _, _, rfl, ?_, ?_⟩
+      · show -1 ≤ f.index - 1; omega
+      · show f.index - 1 ≤ f.node.count; omega
+      · show 0 ≤ f.index - 1; omega
+      · show f.index - 1 < f.node.count; omega
+    · exact retreat_VS (VS_tail hv) h
+
+theorem topCount_pos_of_inRange {f : Frame} {r : Stack} (h : InRange f) : topCount (f :: r) ≠ 0 := by
+  have h0 := h.1
+  have h1 := h.2
+  show f.node.count ≠ 0
+  omega
+
+/-- one iteration of the `next` loop that lands on an empty page strictly shrinks the measure -/
+theorem next_step_measure {t : Tree} {d : Nat} {st st1 : Stack} (hv : VS t st) (h : advance st = some st1)
+    (h0 : topCount (goToFirst d st1) = 0) : sizeAfter (goToFirst d st1) < sizeAfter st := by
+  obtain ⟨_, f', r, rfl, hr⟩ := advance_VS hv h
+  rw [← (advance_frm h).2]
+  cases d with
+  | zero => exact absurd h0 (topCount_pos_of_inRange hr)
+  | succ d =>
+    cases hl : f'.node.isLeaf with
+    | true =>
+      have : goToFirst (d + 1) (f' :: r) = f' :: r := by simp [goToFirst, hl]
+      rw [this] at h0
+      exact absurd h0 (topCount_pos_of_inRange hr)
+    | false => exact goToFirst_size_lt hl hr
+
+theorem stepBack_step_measure {t : Tree} {d : Nat} {st st1 : Stack} (hv : VS t st) (h : retreat st = some st1)
+    (h0 : topCount (goToLast d st1) = 0) : sizeBefore (goToLast d st1) < sizeBefore st := by
+  obtain ⟨_, f', r, rfl, hr⟩ := retreat_VS hv h
+  rw [← (retreat_upto h).2]
+  cases d with
+  | zero => exact absurd h0 (topCount_pos_of_inRange hr)
+  | succ d =>
+    cases hl : f'.node.isLeaf with
+    | true =>
+      have : goToLast (d + 1) (f' :: r) = f' :: r := by simp [goToLast, hl]
+      rw [this] at h0
+      exact absurd h0 (topCount_pos_of_inRange hr)
+    | false => exact goToLast_size_lt hl hr
+
+/-- the `next` loop needs at most `sizeAfter st + 1` iterations -/
+theorem next_fuel_succ {t : Tree} (d : Nat) : ∀ (fuel : Nat) (st : Stack), VS t st → sizeAfter st < fuel →
+    next d (fuel + 1) st = next d fuel st
+  | 0, _, _, h => by omega
+  | fuel+1, st, hv, hf => by
+    rw [next, next]
+    cases h : advance st with
+    | none => rfl
+    | some st1 =>
+      simp only []
+      split
+      · rename_i h0
+        have hm := next_step_measure (d := d) hv h h0
+        exact next_fuel_succ d fuel _ (goToFirst_VS d _ (advance_VS hv h).1) (by omega)
+      · rfl
+
+theorem stepBack_fuel_succ {t : Tree} (d : Nat) : ∀ (fuel : Nat) (st : Stack), VS t st → sizeBefore st < fuel →
+    stepBack d (fuel + 1) st = stepBack d fuel st
+  | 0, _, _, h => by omega
+  | fuel+1, st, hv, hf => by
+    rw [stepBack, stepBack]
+    cases h : retreat st with
+    | none => rfl
+    | some st1 =>
+      simp only []
+      split
+      · rename_i h0
+        have hm := stepBack_step_measure (d := d) hv h h0
+        exact stepBack_fuel_succ d fuel _ (goToLast_VS d _ (retreat_VS hv h).1) (by omega)
+      · rfl
+
+theorem VS_root (t : Tree) (i : Int) (h0 : -1 ≤ i) (h1 : i ≤ t.count) : VS t [⟨t, i⟩] := ⟨h0, h1, rfl⟩
+
+theorem first_fuel_succ (d fuel : Nat) (t : Tree) (hf : size t ≤ fuel) :
+    first d (fuel + 1) t = first d fuel t := by
+  have hv : VS t (goToFirst d [⟨t, 0⟩]) :=
+    goToFirst_VS d _ (VS_root t 0 (by omega) (by omega))
+  simp only [first]
+  rw [next_fuel_succ d fuel _ hv (by have := VS_sizeAfter_lt hv; omega)]
+
+/-! ### results of the forward operations -/
+
+/-- top frame is a leaf with the index on an element -/
+def LeafIn : Stack → Prop
+  | [] => False
+  | f :: _ => f.node.isLeaf = true ∧ InRange f
+
+/-- top frame is a leaf with `0 ≤ index ≤ count` -/
+def LeafAt : Stack → Prop
+  | [] => False
+  | f :: _ => f.node.isLeaf = true ∧ 0 ≤ f.index ∧ f.index ≤ f.node.count
+
+theorem LeafIn.leafAt {st : Stack} (h : LeafIn st) : LeafAt st := by
+  cases st with
+  | nil => exact h
+  | cons f r => exact ⟨h.1, h.2.1, by have := h.2.2; omega⟩
+
+theorem leafIn_elem {st : Stack} (h : LeafIn st) :
+    ∃ x, keyValue st = some x ∧ frm st = x :: after st ∧ upto st = before st ++ [x] := by
+  cases st with
+  | nil => exact absurd h (by simp [LeafIn])
+  | cons f r =>
+    obtain ⟨node, i⟩ := f
+    cases node with
+    | branch kids => have := h.1; simp [Tree.isLeaf] at this
+    | leaf items =>
+      have h0 : 0 ≤ i := h.2.1
+      have h1 : i < (items.length : Int) := h.2.2
+      have hlt : i.toNat < items.length := by omega
+      have hs : (i + 1).toNat = i.toNat + 1 := by omega
+      refine ⟨items[i.toNat], ?_, ?_, ?_⟩
+      · simp only [keyValue]
+        rw [if_neg (by omega)]
+        exact List.getElem?_eq_getElem hlt
+      · simp only [frm, after, fromTop, rightOf, hs]
+        rw [List.drop_eq_getElem_cons hlt]; rfl
+      · simp only [upto, before, uptoTop, leftOf, hs]
+        rw [List.take_add_one, List.getElem?_eq_getElem hlt]; simp
+
+theorem settled_leafIn {st : Stack} (h : Settled st) (h0 : topCount st ≠ 0) : LeafIn st := by
+  cases st with
+  | nil => exact h
+  | cons f r =>
+    have h0 : f.node.count ≠ 0 := h0
+    exact ⟨h.1, h.2.1, by have := h.2.2; omega⟩
+
+theorem settledBack_leafIn {st : Stack} (h : SettledBack st) (h0 : topCount st ≠ 0) : LeafIn st := by
+  cases st with
+  | nil => exact h
+  | cons f r =>
+    have h0 : f.node.count ≠ 0 := h0
+    exact ⟨h.1, by have := h.2.2; omega, h.2.1⟩
+
+theorem emptyTop_eq {st : Stack} (hl : match st with | [] => False | f :: _ => f.node.isLeaf = true)
+    (h0 : topCount st = 0) : frm st = after st ∧ upto st = before st := by
+  cases st with
+  | nil => exact ⟨rfl, rfl⟩
+  | cons f r =>
+    obtain ⟨node, i⟩ := f
+    cases node with
+    | branch kids => simp [Tree.isLeaf] at hl
+    | leaf items =>
+      have h0 : items.length = 0 := h0
+      have : items = [] := List.length_eq_zero_iff.mp h0
+      subst this
+      simp [frm, after, upto, before, fromTop, rightOf, uptoTop, leftOf]
+
+theorem settled_empty {st : Stack} (h : Settled st) (h0 : topCount st = 0) : frm st = after st := by
+  cases st with
+  | nil => exact absurd h (by simp [Settled])
+  | cons f r => exact (emptyTop_eq (st := f :: r) h.1 h0).1
+
+theorem settledBack_empty {st : Stack} (h : SettledBack st) (h0 : topCount st = 0) : upto st = before st := by
+  cases st with
+  | nil => exact absurd h (by simp [SettledBack])
+  | cons f r => exact (emptyTop_eq (st := f :: r) h.1 h0).2
+
+theorem settled_leafAt {t : Tree} {st : Stack} (h : Settled st) (hv : VS t st) : LeafAt st := by
+  cases st with
+  | nil => exact h
+  | cons f r => exact ⟨h.1, h.2.1, hv.2.1⟩
+
+/-- what `first`, `seek` and a successful `next` establish: the cursor sits on the head of
+    the suffix `L` of `flatten t` (or `L` is empty and the cursor is past the end) -/
+inductive SettleRes (t : Tree) (L : List Item) : Stack × Option Item → Prop
+  | found (st' : Stack) (x : Item) (xs : List Item) : VS t st' → L = x :: xs → frm st' = L →
+      LeafIn st' → SettleRes t L (st', some x)
+  | none (st' : Stack) : VS t st' → L = [] → frm st' = [] → after st' = [] → LeafAt st' →
+      SettleRes t L (st', none)
+
+/-- the tail of `next`/`first`: skip empty pages -/
+def settle (d fuel : Nat) (st : Stack) : Stack × Option Item :=
+  if topCount st = 0 then next d fuel st else (st, keyValue st)
+
+theorem next_succ (d fuel : Nat) (st : Stack) :
+    next d (fuel + 1) st = match advance st with
+      | none => (st, none)
+      | some st1 => settle d fuel (goToFirst d st1) := by
+  rw [next]; rfl
+
+theorem first_eq (d fuel : Nat) (t : Tree) : first d fuel t = settle d fuel (goToFirst d [⟨t, 0⟩]) := by
+  simp only [first, settle]
+
+theorem advance_settled {t : Tree} {d : Nat} {st st1 : Stack} (hb : BranchesNonEmpty t) (hd : depth t ≤ d)
+    (hv : VS t st) (h : advance st = some st1) :
+    VS t (goToFirst d st1) ∧ Settled (goToFirst d st1) ∧ frm (goToFirst d st1) = after st := by
+  obtain ⟨hv1, f', r, rfl, hr⟩ := advance_VS hv h
+  refine ⟨goToFirst_VS d _ hv1, ?_, ((goToFirst_frm d _).1).trans (advance_frm h).1⟩
+  have hanc := hv1.2.2
+  exact goToFirst_settled d f' r (Nat.le_trans (Anc_depth hanc) hd) (Anc_bne hb hanc) hr.1 (Or.inl hr.2)
+
+theorem settle_spec {t : Tree} {d : Nat} (hb : BranchesNonEmpty t) (hd : depth t ≤ d) :
+    ∀ (fuel : Nat) (st : Stack), VS t st → Settled st → (topCount st = 0 → sizeAfter st < fuel) →
+      SettleRes t (frm st) (settle d fuel st)
+  | fuel, st, hv, hs, hf => by
+    unfold settle
+    split
+    · rename_i h0
+      have hfa := settled_empty hs h0
+      cases fuel with
+      | zero => have := hf h0; omega
+      | succ fuel =>
+        rw [next_succ]
+        cases h : advance st with
+        | none =>
+          have ha := advance_none h
+          exact SettleRes.none st hv (by rw [hfa, ha]) (by rw [hfa, ha]) ha (settled_leafAt hs hv)
+        | some st1 =>
+          obtain ⟨hv2, hs2, hf2⟩ := advance_settled hb hd hv h
+          have ih := settle_spec hb hd fuel (goToFirst d st1) hv2 hs2 (fun h2 => by
+            have := next_step_measure hv h h2
+            have := hf h0
+            omega)
+          rw [hf2, ← hfa] at ih
+          exact ih
+    · rename_i h0
+      have hin := settled_leafIn hs h0
+      obtain ⟨x, hk, hfx, _⟩ := leafIn_elem hin
+      rw [hk]
+      exact SettleRes.found st x (after st) hv hfx rfl hin
+
+/-- `next`: either nothing to the right (stack untouched), or settled on the head of `after st` -/
+theorem next_spec {t : Tree} {d : Nat} (hb : BranchesNonEmpty t) (hd : depth t ≤ d)
+    (fuel : Nat) (st : Stack) (hv : VS t st) (hf : sizeAfter st < fuel) :
+    (advance st = none ∧ after st = [] ∧ next d fuel st = (st, none)) ∨
+      SettleRes t (after st) (next d fuel st) := by
+  cases fuel with
+  | zero => omega
+  | succ fuel =>
+    rw [next_succ]
+    cases h : advance st with
+    | none => exact Or.inl ⟨rfl, advance_none h, rfl⟩
+    | some st1 =>
+      right
+      obtain ⟨hv2, hs2, hf2⟩ := advance_settled hb hd hv h
+      have := settle_spec hb hd fuel (goToFirst d st1) hv2 hs2 (fun h2 => by
+        have := next_step_measure hv h h2
+        omega)
+      rw [hf2] at this
+      exact this
+
+theorem first_spec {t : Tree} {d fuel : Nat} (hb : BranchesNonEmpty t) (hd : depth t ≤ d) (hf : size t ≤ fuel) :
+    SettleRes t (flatten t) (first d fuel t) := by
+  rw [first_eq]
+  have hv0 : VS t [⟨t, 0⟩] := VS_root t 0 (by omega) (by omega)
+  have hv : VS t (goToFirst d [⟨t, 0⟩]) := goToFirst_VS d _ hv0
+  have hs : Settled (goToFirst d [⟨t, 0⟩]) := by
+    apply goToFirst_settled d ⟨t, 0⟩ [] hd hb (Int.le_refl 0)
+    show (0 : Int) < (t.count : Int) ∨ t.count = 0
+    omega
+  have := settle_spec hb hd fuel _ hv hs (fun _ => by have := VS_sizeAfter_lt hv; omega)
+  rw [(goToFirst_frm d _).1] at this
+  have h2 : frm [⟨t, 0⟩] = flatten t := by
+    simp only [frm, after, (fromTop_zero t).1, List.append_nil]
+  rw [h2] at this
+  exact this
+
+/-- a `found` result: the returned element is the head of `L`, the rest is still to the right -/
+theorem SettleRes.after_eq {t : Tree} {L : List Item} {st' : Stack} {x : Item} (h : SettleRes t L (st', some x)) :
+    VS t st' ∧ LeafIn st' ∧ frm st' = L ∧ L = x :: after st' := by
+  cases h with
+  | found _ _ xs hv hL hf hin =>
+    obtain ⟨y, _, hy, _⟩ := leafIn_elem hin
+    refine ⟨hv, hin, hf, ?_⟩
+    rw [← hf, hy]
+    rw [hf, hL] at hy
+    cases hy; rfl
+
+theorem SettleRes.none_eq {t : Tree} {L : List Item} {st' : Stack} (h : SettleRes t L (st', Option.none)) :
+    VS t st' ∧ LeafAt st' ∧ L = [] ∧ frm st' = [] ∧ after st' = [] := by
+  cases h with
+  | none _ hv hL hf ha hl => exact ⟨hv, hl, hL, hf, ha⟩
+
+/-! ### results of the backward operations -/
+
+/-- what a successful `stepBack` establishes: the cursor sits on the last element of the
+    prefix `L` of `flatten t`; `none` iff `L` is empty -/
+inductive BackRes (t : Tree) (L : List Item) : Option Stack → Prop
+  | found (st' : Stack) (x : Item) (xs : List Item) : VS t st' → L = xs ++ [x] → upto st' = L →
+      LeafIn st' → BackRes t L (some st')
+  | none : L = [] → BackRes t L none
+
+def settleBack (d fuel : Nat) (st : Stack) : Option Stack :=
+  if topCount st = 0 then stepBack d fuel st else some st
+
+theorem stepBack_succ (d fuel : Nat) (st : Stack) :
+    stepBack d (fuel + 1) st = match retreat st with
+      | none => none
+      | some st1 => settleBack d fuel (goToLast d st1) := by
+  rw [stepBack]; rfl
+
+theorem retreat_settled {t : Tree} {d : Nat} {st st1 : Stack} (hb : BranchesNonEmpty t) (hd : depth t ≤ d)
+    (hv : VS t st) (h : retreat st = some st1) :
+    VS t (goToLast d st1) ∧ SettledBack (goToLast d st1) ∧ upto (goToLast d st1) = before st := by
+  obtain ⟨hv1, f', r, rfl, hr⟩ := retreat_VS hv h
+  refine ⟨goToLast_VS d _ hv1, ?_, ((goToLast_upto d _).1).trans (retreat_upto h).1⟩
+  have hanc := hv1.2.2
+  exact goToLast_settled d f' r (Nat.le_trans (Anc_depth hanc) hd) (Anc_bne hb hanc) hr.2 (Or.inl hr.1)
+
+theorem settleBack_spec {t : Tree} {d : Nat} (hb : BranchesNonEmpty t) (hd : depth t ≤ d) :
+    ∀ (fuel : Nat) (st : Stack), VS t st → SettledBack st → (topCount st = 0 → sizeBefore st < fuel) →
+      BackRes t (upto st) (settleBack d fuel st)
+  | fuel, st, hv, hs, hf => by
+    unfold settleBack
+    split
+    · rename_i h0
+      have hfa := settledBack_empty hs h0
+      cases fuel with
+      | zero => have := hf h0; omega
+      | succ fuel =>
+        rw [stepBack_succ]
+        cases h : retreat st with
+        | none =>
+          have ha := retreat_none h
+          exact BackRes.none (by rw [hfa, ha])
+        | some st1 =>
+          obtain ⟨hv2, hs2, hf2⟩ := retreat_settled hb hd hv h
+          have ih := settleBack_spec hb hd fuel (goToLast d st1) hv2 hs2 (fun h2 => by
+            have := stepBack_step_measure hv h h2
+            have := hf h0
+            omega)
+          rw [hf2, ← hfa] at ih
+          exact ih
+    · rename_i h0
+      have hin := settledBack_leafIn hs h0
+      obtain ⟨x, _, _, hux⟩ := leafIn_elem hin
+      exact BackRes.found st x (before st) hv hux rfl hin
+
+theorem stepBack_spec {t : Tree} {d : Nat} (hb : BranchesNonEmpty t) (hd : depth t ≤ d)
+    (fuel : Nat) (st : Stack) (hv : VS t st) (hf : sizeBefore st < fuel) :
+    BackRes t (before st) (stepBack d fuel st) := by
+  cases fuel with
+  | zero => omega
+  | succ fuel =>
+    rw [stepBack_succ]
+    cases h : retreat st with
+    | none => exact BackRes.none (retreat_none h)
+    | some st1 =>
+      obtain ⟨hv2, hs2, hf2⟩ := retreat_settled hb hd hv h
+      have := settleBack_spec hb hd fuel (goToLast d st1) hv2 hs2 (fun h2 => by
+        have := stepBack_step_measure hv h h2
+        omega)
+      rw [hf2] at this
+      exact this
+
+/-- `prev`/`Last` results; `fst` is where `first` leaves the stack -/
+inductive PrevRes (t : Tree) (L : List Item) (fst : Stack) : Stack × Option Item → Prop
+  | found (st' : Stack) (x : Item) (xs : List Item) : VS t st' → L = xs ++ [x] → upto st' = L →
+      LeafIn st' → PrevRes t L fst (st', some x)
+  | none : L = [] → PrevRes t L fst (fst, Option.none)
+
+theorem PrevRes.found_eq {t : Tree} {L : List Item} {fst st' : Stack} {x : Item}
+    (h : PrevRes t L fst (st', some x)) :
+    VS t st' ∧ LeafIn st' ∧ upto st' = L ∧ L = before st' ++ [x] := by
+  cases h with
+  | found _ _ xs hv hL hf hin =>
+    obtain ⟨y, _, _, hy⟩ := leafIn_elem hin
+    refine ⟨hv, hin, hf, ?_⟩
+    rw [← hf, hy]
+    rw [hf, hL] at hy
+    have := List.append_inj' hy (by simp)
+    rw [(List.singleton_inj.mp this.2)]
+
+theorem PrevRes.none_eq {t : Tree} {L : List Item} {fst st' : Stack}
+    (h : PrevRes t L fst (st', Option.none)) : L = [] ∧ st' = fst := by
+  cases h with
+  | none hL => exact ⟨hL, rfl⟩
+
+theorem prev_spec {t : Tree} {d : Nat} (hb : BranchesNonEmpty t) (hd : depth t ≤ d)
+    (fuel : Nat) (st : Stack) (hv : VS t st) (hne : st ≠ []) (hf : size t ≤ fuel) :
+    PrevRes t (before st) (first d fuel t).1 (prev d fuel t st) := by
+  have hs := stepBack_spec hb hd fuel st hv (by have := VS_sizeBefore_lt hv; omega)
+  simp only [prev]
+  generalize stepBack d fuel st = r at hs
+  cases hs with
+  | found st' x xs hv' hL hu hin =>
+    obtain ⟨y, hk, _, hy⟩ := leafIn_elem hin
+    simp only [hk]
+    rw [hu, hL] at hy
+    have := List.append_inj' hy (by simp)
+    rw [← (List.singleton_inj.mp this.2)]
+    exact PrevRes.found st' x xs hv' hL hu hin
+  | none hL =>
+    have : st.isEmpty = false := by cases st with
+      | nil => exact absurd rfl hne
+      | cons _ _ => rfl
+    simp only [this, Bool.false_eq_true, if_false]
+    exact PrevRes.none hL
+
+theorem last_spec {t : Tree} {d fuel : Nat} (hb : BranchesNonEmpty t) (hd : depth t ≤ d) (hf : size t ≤ fuel) :
+    PrevRes t (flatten t) (first d fuel t).1 (last d fuel t) := by
+  have hv0 : VS t [⟨t, (t.count : Int) - 1⟩] := VS_root t _ (by omega) (by omega)
+  have hv : VS t (goToLast d [⟨t, (t.count : Int) - 1⟩]) := goToLast_VS d _ hv0
+  have hs : SettledBack (goToLast d [⟨t, (t.count : Int) - 1⟩]) := by
+    apply goToLast_settled d ⟨t, (t.count : Int) - 1⟩ [] hd hb
+    · show (t.count : Int) - 1 < (t.count : Int); omega
+    · show (0 : Int) ≤ (t.count : Int) - 1 ∨ t.count = 0; omega
+  have hu : upto (goToLast d [⟨t, (t.count : Int) - 1⟩]) = flatten t := by
+    rw [(goToLast_upto d _).1]
+    simp only [upto, before, (uptoTop_last t).1, List.nil_append]
+  simp only [last]
+  split
+  · rename_i h0
+    have hne : goToLast d [⟨t, (t.count : Int) - 1⟩] ≠ [] := by
+      intro h; rw [h] at hs; exact hs
+    have := prev_spec hb hd fuel _ hv hne hf
+    rw [← settledBack_empty hs h0, hu] at this
+    exact this
+  · rename_i h0
+    have hin := settledBack_leafIn hs h0
+    obtain ⟨x, hk, _, hux⟩ := leafIn_elem hin
+    rw [hk]
+    exact PrevRes.found _ x _ hv (by rw [← hu, hux]) hu hin
 
 end Bolt.Cur
